@@ -150,7 +150,10 @@ def check(ctx, replay=None):
         # first-run fates from the specification: every disassembler failure point and every kill point, tool missing, clean
         # (sig_after_i: the disassembler itself dies from a signal - OOM killer, crash - after chunk i; a failure like a non-zero exit)
         fates = (["ok", "missing"] + ["fail_after_%d" % i for i in range(NCHUNKS + 1)] + ["kill_after_%d" % i for i in range(NCHUNKS + 1)]
-                 + ["sig_after_%d" % i for i in range(NCHUNKS + 1)])
+                 + ["sig_after_%d" % i for i in range(NCHUNKS + 1)]
+                 # ProfCache!Interrupt: a catchable signal reaches the profiler while the disassembler writes (the disassembler goes on to the end
+                 # after SIGTERM / SIGINT, and gives up after SIGHUP)
+                 + ["%s_after_%d" % (s, i) for s in ("term", "int", "hup") for i in range(NCHUNKS + 1)])
         reps = 8 if th else 1
         plan = [(fate, rebuilt, "target", False) for fate in fates for rebuilt in (False, True)]
         plan += [(fate, False, LONG, False) for fate in ["ok", "missing", "fail_after_1"] + ["kill_after_%d" % i for i in range(NCHUNKS + 1)]]
